@@ -48,6 +48,10 @@ def main():
         geoms.append(data.TimeInterval(coordinates=[float(a), float(b)]))
         geoms.append(data.BoundingBox(coordinates=[float(a), 100.0 * float(a), float(b), 100.0 * float(b) + 50]))
     geoms += [data.TimeStamp(coordinates=float(p)) for p in pts]
+    # lines whose time extent is reached at an INTERIOR vertex (end points in order, an excursion beyond them in between)
+    geoms += [data.LineString(coordinates=[[0.5, 200.0], [2.0, 800.0], [1.0, 500.0]]),
+              data.LineString(coordinates=[[1.0, 300.0], [0.0, 100.0], [1.5, 900.0]]),
+              data.MultiLineString(coordinates=[[[0.5, 100.0], [1.75, 50.0], [1.0, 400.0]]])]
     for g1, g2 in itertools.product(geoms, geoms):
         for a, r in ((None, None), (0.25, None), (None, 0.5)):
             args = dict(geom1=g1, geom2=g2, min_absolute_overlap=a, min_relative_overlap=r)
